@@ -1292,6 +1292,16 @@ func (c *control) dirR(colon, at bool, params []any) {
 				break
 			}
 		}
+		if colon && digits[len(digits)-1] == '0' && (len(digits) < 2 || digits[len(digits)-2] != '1') {
+			// The number ends in a multiple of ten, a hundred, a thousand, ... so
+			// the last word is still a cardinal: twenty -> twentieth, hundred ->
+			// hundredth, million -> millionth.
+			if last := words[0]; last[len(last)-1] == 'y' {
+				words[0] = last[:len(last)-1] + "ieth"
+			} else {
+				words[0] = last + "th"
+			}
+		}
 		if neg {
 			words = append(words, "negative")
 		}
